@@ -147,7 +147,10 @@ def method_records(run, F, E, verbose):
                     okr = len(recs) == 1
                     if okr:
                         ra = recs[0].get('args', [])
-                        okr = len(ra) == 3 and ir.const_val(ra[1]) == sid and ir.strip(ra[2]).get('k') == 'var' and ir.strip(ra[2]).get('vk') == 'param'
+                        cg = cfgmod.cfg_of(g)
+                        rn = cg.events(('call',), lambda n: n.e.get('m') == 'recordMethod')
+                        okr = len(ra) == 3 and ir.const_val(ra[1]) == sid and ir.strip(ra[2]).get('k') == 'var' and ir.strip(ra[2]).get('vk') == 'param' \
+                            and len(rn) == 1 and cg.postdominates(rn[0], cg.entry)
                     conds['the state defines %s, so the selected log() overload records (state %s)' % (user_m, sid)] = okr
             bad = [k for k, v in conds.items() if not v]
             if bad:
